@@ -28,6 +28,8 @@ def alias_in_join(expression: exp.Expression) -> exp.Expression:
                 (on := j.args.get("on"))
                 and (col := on.this)
                 and (isinstance(col, exp.Column))
+                # a qualified column (b.k) names a column of that table, never an alias of the select list
+                and not col.table
                 and (alias := aliases.get(col.name))
             ):
                 col.args["this"] = alias.this
